@@ -145,14 +145,6 @@ func flight3Parse(
 				return 0, &alert.Alert{Level: alert.Fatal, Description: alert.InternalError}, err
 			}
 		}
-
-		if !cfg.HasSessionStore {
-			state.SessionID = []byte{}
-		} else {
-			state.SessionID = bytes.Clone(serverHelloMsg.SessionID)
-		}
-
-		state.MasterSecret = []byte{}
 	}
 
 	var serverFlightPull dtlsflight.HandshakeCachePullResult
@@ -177,6 +169,19 @@ func flight3Parse(
 		return 0, nil, nil
 	}
 	state.HandshakeRecvSequence = serverFlightPull.NextSequence
+
+	if hasServerHello {
+		// Adopt the server's session ID only once the whole flight is present: this
+		// parser runs again for every datagram of a split flight, and an ID committed
+		// by an earlier partial run would make the full handshake look like a resumption.
+		if !cfg.HasSessionStore {
+			state.SessionID = []byte{}
+		} else {
+			state.SessionID = bytes.Clone(serverHelloMsg.SessionID)
+		}
+
+		state.MasterSecret = []byte{}
+	}
 
 	if h, ok := serverFlightPull.Messages[handshake.TypeCertificate].(*handshake.MessageCertificate); ok {
 		state.PeerCertificates = util.CloneByteSlices(h.Certificate)
